@@ -28,12 +28,15 @@ CHECKS = {
         text="Proof (partial, with refutations) over the same L2 model: the provenance of baked factors / initial energy "
              "depends on the table list and index only through the per-wall resolution (overwritten tables and setter "
              "order vanish); bake, exchange(recalculate) and set_air_attenuation are idempotent (Leibniz equality of the "
-             "state). Refuted with witnesses (known findings): default-BRDF install by init_source_energy changes a "
+             "state); final-configuration theorem over ALL histories: two states (or two arbitrary histories from a fresh "
+             "object) that agree on the configuration fields answer bake; init_source; exchange(recalculate) with the same "
+             "classes up to the first failure and, on success, the same provenance of every receiver collection -- no "
+             "cached field of either state enters (C16_final_config_history_independent). Refuted with witnesses (known findings): default-BRDF install by init_source_energy changes a "
              "re-bake, stale tables of another direction count break bake, from_dict aliases the caller's direction "
              "lists. The check compares every history with the canonical history of its effective configuration, all "
              "setter permutations, repeated stages, and deep-copies every caller-owned object around every call.",
-        note=TRUST + "NOT carried: final-configuration theorem over ALL histories (resolution lemma + instance + "
-             "harness comparison only), idempotence of init_source, the frame property (aliasing is observed, not proved).",
+        note=TRUST + "NOT carried: configuration equality in the theorem is equality of the raw table list and index (the "
+             "resolution lemma covers overwritten tables only for the material part), idempotence of init_source, the frame property (aliasing is observed, not proved).",
         technique="Coq proof over an abstract object state machine + op-sequence correspondence", ref="5/C16"),
     "C17": dict(
         text="Proof (partial): translating scene, source and receivers leaves baked factors, slot maps, delays, initial "
